@@ -33,7 +33,6 @@ ACTIVE = [Rules()]
 
 class Free:
     _vc_domain = "free"
-    __array_priority__ = 3000
     __slots__ = ("t",)
 
     def __init__(self, terms=None):
